@@ -8,7 +8,7 @@ VARIABLE tid
 Init == tid \in 1..Len(Cases)
 Next == FALSE /\ UNCHANGED tid
 ToSrc(s) == [k |-> s.k, v |-> s.v]
-ToNode(n) == [name |-> n.name, x |-> ToSrc(n.x), y |-> ToSrc(n.y), hassplit |-> n.hassplit, split |-> n.split, inner |-> n.inner, mk |-> n.mk,
+ToNode(n) == [name |-> n.name, x |-> ToSrc(n.x), y |-> ToSrc(n.y), hassplit |-> n.hassplit, split |-> n.split, inner |-> n.inner, mk |-> n.mk, z |-> ToSrc(n.z),
               comb |-> [k \in 1..Len(n.comb) |-> <<n.comb[k][1], n.comb[k][2]>>]]
 ToWf(c) == [ins |-> c.ins, nodes |-> [k \in 1..Len(c.nodes) |-> ToNode(c.nodes[k])], outs |-> c.outs]
 Emit == PrintT(ToJson([tid |-> Cases[tid].tid, res |-> Result(ToWf(Cases[tid]))]))
